@@ -326,7 +326,7 @@ func (o *OracleC05) knownBlock(x *Exec, s *Snap, v int, denom string, msg string
 			return true
 		}
 	}
-	if degenerateAsset(s, denom) || orphanedValidator(s, denom) {
+	if x.PrecisionCollapsed(denom) || degenerateAsset(s, denom) || orphanedValidator(s, denom) {
 		x.KnownFinding("F-C04a")
 		x.Label("c05:ownerless-value-state")
 		return true
